@@ -8,6 +8,7 @@ import (
 	"crypto/rand"
 	"errors"
 	"io"
+	"time"
 )
 
 var vErrForeign = errors.New("verif: transport failure")
@@ -45,6 +46,10 @@ type vTransport struct {
 	// holdWrites > 0: that many Write calls block until release is closed (a peer that stops reading for a while)
 	holdWrites int
 	release    chan struct{}
+
+	// slowRelease: a Write blocked by writeBlock returns only this long after Close (a kernel that takes its time)
+	slowRelease time.Duration
+	closeErr    error // returned by Close
 
 	// gates: input from offset gatePos[i] on is delivered only once gateWrites[i] Write calls have been seen
 	gatePos    []int
@@ -119,6 +124,9 @@ func (t *vTransport) Write(p []byte) (int, error) {
 	}
 	if t.writeBlock {
 		<-t.closed
+		if t.slowRelease > 0 {
+			time.Sleep(t.slowRelease)
+		}
 		return 0, vErrTransportClosed
 	}
 	if t.probe != nil {
@@ -151,7 +159,7 @@ func (t *vTransport) Close() error {
 		t.isClosed = true
 		close(t.closed)
 	}
-	return nil
+	return t.closeErr
 }
 
 // vRandReader replaces crypto/rand.Reader: every byte is a fresh arbitrary input, and what was handed out is logged.
